@@ -24,8 +24,10 @@ association list whose `Get` returns the first entry under the key), every hands
   got a non-empty identical id back, with the session's version, the session's suite and a master secret — a
   different version or suite is refused with handshake_failure (40), a missing master secret with
   internal_error (80); `C10_src_sel_resumption_agreement_*`: what the server resumes the client accepts;
-* the panics (`C10_src_sel_panics_*`): nil pointers, and a cache that answers `(nil, true)`: the Go code then
-  dereferences the nil state — a panic, not a fall-back; nothing else fails (`C10_src_sel_total_*`);
+* the panics (`C10_src_sel_panics_*`): nil `hs.c` / `hs.c.config` / `hs.clientHello` only; whatever the cache
+  answers nothing fails (`C10_src_sel_total_*`) — a cache that answers `(nil, true)` is refused like a miss
+  (finding F65: the unrepaired code dereferenced the nil state and panicked; found because the closed form of the
+  translated text had an error leaf there, reproduced on the real code, repaired in /repo 6bb3289);
 * `C10_src_sel_is_model_*`: the translated decision is `Model.Resumption.checkForResumption`'s, through an
   abstraction of the lookup; this is what the guards of the model rest on — the text fact `resServerGuards` is no
   longer pinned by `C10_facts`.
@@ -190,11 +192,12 @@ theorem C10_src_sel_resumed_suite_tlcp (tbl : BitVec 16 → Option cipherSuite) 
   obtain ⟨st, s, ⟨_, _, _, _, k7, k8, k9, k10, k11⟩, rfl⟩ := (cfr_true_iff tbl nn hs c cfg ch hc hcfg hch hs').mp h
   exact ⟨st, s, rfl, rfl, k9, k11, k8, k10, k7, fun ht => ht _ _ k9, rfl, rfl⟩
 
-/-- PANICS.  `checkForResumption` panics when `hs.c` or `hs.c.config` is nil; with a session cache configured, when
-`hs.clientHello` is nil (without one it returns false before touching the ClientHello); and when the cache answers
-`(nil, true)` for the offered id: `hs.sessionState` is then nil and `len(hs.sessionState.peerCertificates)`
-dereferences it.  (The repository's own `lruSessionCache` never stores a nil state — `Put(k, nil)` deletes — so
-this needs a foreign `SessionCache` implementation.) -/
+/-- PANICS.  `checkForResumption` panics when `hs.c` or `hs.c.config` is nil and, with a session cache configured,
+when `hs.clientHello` is nil (without one it returns false before touching the ClientHello) — and in NO other
+case.  In particular a cache that answers `(nil, true)` for the offered id is REFUSED like a miss: false, no error,
+`hs.sessionState = nil`, nothing else changed (finding F65, repaired: the unrepaired code went on to
+`len(hs.sessionState.peerCertificates)` and panicked; the repository's own `lruSessionCache` never stores a nil
+state, a foreign `SessionCache` may). -/
 theorem C10_src_sel_panics_tlcp (tbl : BitVec 16 → Option cipherSuite) (nn : List (BitVec 16) → Bool)
     (hs : serverHandshakeState) :
     (hs.c = none ∨ (∃ c, hs.c = some c ∧ c.config = none) →
@@ -206,20 +209,18 @@ theorem C10_src_sel_panics_tlcp (tbl : BitVec 16 → Option cipherSuite) (nn : L
     (∀ c cfg ch cache e, hs.c = some c → c.config = some cfg → hs.clientHello = some ch →
       cfg.SessionCache = some cache → ch.sessionId ≠ [] →
       cache.entries.find? (fun e => e.key == Go.hexEncode ch.sessionId) = some e → e.state = none →
-      serverHandshakeState.checkForResumption tbl nn hs = .error nilDeref) :=
+      serverHandshakeState.checkForResumption tbl nn hs = .ok ({ hs with sessionState := none }, false)) :=
   ⟨cfr_nil_conn tbl nn hs, fun c cfg h1 h2 h3 => cfr_no_cache tbl nn hs c cfg h1 h2 h3,
     fun c cfg cache h1 h2 h3 h4 => cfr_nil_hello tbl nn hs c cfg cache h1 h2 h3 h4,
     fun c cfg ch cache e h1 h2 h3 h4 h5 h6 h7 => cfr_nil_state tbl nn hs c cfg ch h1 h2 h3 ⟨cache, e, h4, h5, h6, h7⟩⟩
 
-/-- TOTAL otherwise: with non-nil `hs.c`, `hs.c.config`, `hs.clientHello` and a cache that does not answer
-`(nil, true)`, `checkForResumption` returns (no panic, and it has no loop that could run away). -/
+/-- TOTAL: with non-nil `hs.c`, `hs.c.config`, `hs.clientHello`, `checkForResumption` returns — for EVERY cache
+content, a `(nil, true)` answer included: no panic, and it has no loop that could run away. -/
 theorem C10_src_sel_total_tlcp (tbl : BitVec 16 → Option cipherSuite) (nn : List (BitVec 16) → Bool)
     (hs : serverHandshakeState) (c : Conn) (cfg : Config) (ch : clientHelloMsg)
-    (hc : hs.c = some c) (hcfg : c.config = some cfg) (hch : hs.clientHello = some ch)
-    (hn : ¬ ∃ cache e, cfg.SessionCache = some cache ∧ ch.sessionId ≠ [] ∧
-      cache.entries.find? (fun e => e.key == Go.hexEncode ch.sessionId) = some e ∧ e.state = none) :
+    (hc : hs.c = some c) (hcfg : c.config = some cfg) (hch : hs.clientHello = some ch) :
     ∃ hs' b, serverHandshakeState.checkForResumption tbl nn hs = .ok (hs', b) := by
-  obtain ⟨r, hr⟩ := cfr_total tbl nn hs c cfg ch hc hcfg hch hn
+  obtain ⟨r, hr⟩ := cfr_total tbl nn hs c cfg ch hc hcfg hch
   exact ⟨r.1, r.2, hr⟩
 
 /-- THE CLIENT.  `processServerHello` never panics (non-nil `hs.c`, `hs.hello`, `hs.serverHello`) and reports
@@ -521,11 +522,12 @@ theorem C10_src_sel_resumed_suite_dtlcp (tbl : BitVec 16 → Option cipherSuite)
   obtain ⟨st, s, ⟨_, _, _, _, k7, k8, k9, k10, k11⟩, rfl⟩ := (cfr_true_iff tbl nn hs c cfg ch hc hcfg hch hs').mp h
   exact ⟨st, s, rfl, rfl, k9, k11, k8, k10, k7, fun ht => ht _ _ k9, rfl, rfl⟩
 
-/-- PANICS.  `checkForResumption` panics when `hs.c` or `hs.c.config` is nil; with a session cache configured, when
-`hs.clientHello` is nil (without one it returns false before touching the ClientHello); and when the cache answers
-`(nil, true)` for the offered id: `hs.sessionState` is then nil and `len(hs.sessionState.peerCertificates)`
-dereferences it.  (The repository's own `lruSessionCache` never stores a nil state — `Put(k, nil)` deletes — so
-this needs a foreign `SessionCache` implementation.) -/
+/-- PANICS.  `checkForResumption` panics when `hs.c` or `hs.c.config` is nil and, with a session cache configured,
+when `hs.clientHello` is nil (without one it returns false before touching the ClientHello) — and in NO other
+case.  In particular a cache that answers `(nil, true)` for the offered id is REFUSED like a miss: false, no error,
+`hs.sessionState = nil`, nothing else changed (finding F65, repaired: the unrepaired code went on to
+`len(hs.sessionState.peerCertificates)` and panicked; the repository's own `lruSessionCache` never stores a nil
+state, a foreign `SessionCache` may). -/
 theorem C10_src_sel_panics_dtlcp (tbl : BitVec 16 → Option cipherSuite) (nn : List (BitVec 16) → Bool)
     (hs : serverHandshakeState) :
     (hs.c = none ∨ (∃ c, hs.c = some c ∧ c.config = none) →
@@ -537,20 +539,18 @@ theorem C10_src_sel_panics_dtlcp (tbl : BitVec 16 → Option cipherSuite) (nn : 
     (∀ c cfg ch cache e, hs.c = some c → c.config = some cfg → hs.clientHello = some ch →
       cfg.SessionCache = some cache → ch.sessionId ≠ [] →
       cache.entries.find? (fun e => e.key == Go.hexEncode ch.sessionId) = some e → e.state = none →
-      serverHandshakeState.checkForResumption tbl nn hs = .error nilDeref) :=
+      serverHandshakeState.checkForResumption tbl nn hs = .ok ({ hs with sessionState := none }, false)) :=
   ⟨cfr_nil_conn tbl nn hs, fun c cfg h1 h2 h3 => cfr_no_cache tbl nn hs c cfg h1 h2 h3,
     fun c cfg cache h1 h2 h3 h4 => cfr_nil_hello tbl nn hs c cfg cache h1 h2 h3 h4,
     fun c cfg ch cache e h1 h2 h3 h4 h5 h6 h7 => cfr_nil_state tbl nn hs c cfg ch h1 h2 h3 ⟨cache, e, h4, h5, h6, h7⟩⟩
 
-/-- TOTAL otherwise: with non-nil `hs.c`, `hs.c.config`, `hs.clientHello` and a cache that does not answer
-`(nil, true)`, `checkForResumption` returns (no panic, and it has no loop that could run away). -/
+/-- TOTAL: with non-nil `hs.c`, `hs.c.config`, `hs.clientHello`, `checkForResumption` returns — for EVERY cache
+content, a `(nil, true)` answer included: no panic, and it has no loop that could run away. -/
 theorem C10_src_sel_total_dtlcp (tbl : BitVec 16 → Option cipherSuite) (nn : List (BitVec 16) → Bool)
     (hs : serverHandshakeState) (c : Conn) (cfg : Config) (ch : clientHelloMsg)
-    (hc : hs.c = some c) (hcfg : c.config = some cfg) (hch : hs.clientHello = some ch)
-    (hn : ¬ ∃ cache e, cfg.SessionCache = some cache ∧ ch.sessionId ≠ [] ∧
-      cache.entries.find? (fun e => e.key == Go.hexEncode ch.sessionId) = some e ∧ e.state = none) :
+    (hc : hs.c = some c) (hcfg : c.config = some cfg) (hch : hs.clientHello = some ch) :
     ∃ hs' b, serverHandshakeState.checkForResumption tbl nn hs = .ok (hs', b) := by
-  obtain ⟨r, hr⟩ := cfr_total tbl nn hs c cfg ch hc hcfg hch hn
+  obtain ⟨r, hr⟩ := cfr_total tbl nn hs c cfg ch hc hcfg hch
   exact ⟨r.1, r.2, hr⟩
 
 /-- THE CLIENT.  `processServerHello` never panics (non-nil `hs.c`, `hs.hello`, `hs.serverHello`) and reports
@@ -747,7 +747,7 @@ def keyEx : List (BitVec 8) := Go.hexEncode [1#8, 0xab#8]
 /-- resumed with the session's own suite (although ECC-GCM is offered, enabled and preferred); refused when the client
 no longer offers the suite, when the configuration no longer enables it, when the version differs, under a policy
 that requires a certificate the session does not record, with a recorded certificate under NoClientCert; a miss;
-the first match decides; `(nil, true)` is a panic -/
+the first match decides; `(nil, true)` is refused like a miss (F65 repaired) -/
 example :
     outEx (serverHandshakeState.checkForResumption tblEx nnEx
       (srvEx [⟨keyEx, some stEx⟩] 0 [1#8, 0xab#8] [0xe053#16, 0xe013#16] [])) = ⟨true, true, some 0xe013#16, some 0xe013#16⟩ ∧
@@ -769,7 +769,7 @@ example :
       (srvEx [⟨keyEx, some { stEx with cipherSuite := 0xe053#16 }⟩, ⟨keyEx, some stEx⟩] 0 [1#8, 0xab#8] [0xe013#16] [])) =
         ⟨true, false, none, some 0xe053#16⟩ ∧
     outEx (serverHandshakeState.checkForResumption tblEx nnEx
-      (srvEx [⟨keyEx, none⟩] 0 [1#8, 0xab#8] [0xe013#16] [])) = ⟨false, false, none, none⟩ := by decide
+      (srvEx [⟨keyEx, none⟩] 0 [1#8, 0xab#8] [0xe013#16] [])) = ⟨true, false, none, none⟩ := by decide
 
 /-- what the client examples look at -/
 structure PshOut where
